@@ -663,9 +663,8 @@ class FileCache:
         Return size on disk of the cache in bytes.
         :return: cache size in bytes.
         """
-        return _get_total_size_of_files_in_bytes(
-            list(self._entries.values()), self.path
-        )
+        # Note: the entries already contain the full path to the cached files.
+        return _get_total_size_of_files_in_bytes(list(self._entries.values()))
 
     def purge(self) -> None:
         """
